@@ -3,6 +3,8 @@ package main
 import (
 	"encoding/json"
 	"fmt"
+	"go/ast"
+	"go/parser"
 	"go/scanner"
 	"go/token"
 	"os"
@@ -251,4 +253,165 @@ func badDiagnostic(src, wsJSON string) string {
 		}
 	}
 	return ""
+}
+
+// replayThreshold: realise the input, run the real checker under the two
+// thresholds of the model, confirm if the relaxed one reports more.
+func replayThreshold(checker, param string) func(rc *runCtx, h *harness, v *interp.Violation, file string) (bool, string) {
+	return func(rc *runCtx, h *harness, v *interp.Violation, file string) (bool, string) {
+		data, err := os.ReadFile(file)
+		if err != nil {
+			return false, err.Error()
+		}
+		var vf map[string]interface{}
+		json.Unmarshal(data, &vf)
+		model, _ := vf["model"].(map[string]interface{})
+		if model == nil {
+			return false, "no model"
+		}
+		category := "decl"
+		if tn, ok := model["x#type"].(string); ok {
+			switch {
+			case exprKinds[tn]:
+				category = "expr"
+			case stmtKinds[tn]:
+				category = "stmt"
+			}
+		} else if _, ok := model["x.List#len"]; ok {
+			category = "block"
+		}
+		sources, notes := realise(model, specView(), "x", category, 16)
+		sources = append(sources, realiseComments(model)...)
+		if len(sources) == 0 {
+			return false, "not realised: " + strings.Join(notes, "; ")
+		}
+		num := func(k string) float64 {
+			switch x := model[k].(type) {
+			case float64:
+				return x
+			case string:
+				var f float64
+				fmt.Sscan(x, &f)
+				return f
+			}
+			return 0
+		}
+		t1, t2 := num("t1?i"), num("t2?i")
+		r1, err := runRealised(checker, map[string]interface{}{param: t1}, sources, "")
+		if err != nil {
+			return false, err.Error()
+		}
+		r2, err := runRealised(checker, map[string]interface{}{param: t2}, sources, "")
+		if err != nil {
+			return false, err.Error()
+		}
+		for i := range r1 {
+			if i < len(r2) && r1[i].Status == "OK" && r2[i].Status == "OK" && r2[i].Warnings > r1[i].Warnings {
+				vf["realised"] = []string{sources[i]}
+				out, _ := json.MarshalIndent(vf, "", " ")
+				os.WriteFile(file, out, 0o644)
+				return true, fmt.Sprintf("real checker: %d diagnostics at %s=%v but %d at the relaxed %s=%v\n%s", r1[i].Warnings, param, t1, r2[i].Warnings, param, t2, sources[i])
+			}
+		}
+		return false, fmt.Sprintf("%d realisations: relaxed threshold never reported more", len(r1))
+	}
+}
+
+// replayBoundary: the realised program is run under every threshold 0..16;
+// the largest threshold that still reports must be the documented measure,
+// which the native side computes independently: statements of the if body /
+// result count - 1 / parameter size.
+func replayBoundary(checker, param string) func(rc *runCtx, h *harness, v *interp.Violation, file string) (bool, string) {
+	return func(rc *runCtx, h *harness, v *interp.Violation, file string) (bool, string) {
+		data, err := os.ReadFile(file)
+		if err != nil {
+			return false, err.Error()
+		}
+		var vf map[string]interface{}
+		json.Unmarshal(data, &vf)
+		model, _ := vf["model"].(map[string]interface{})
+		category := "decl"
+		if tn, ok := model["x#type"].(string); ok {
+			switch {
+			case exprKinds[tn]:
+				category = "expr"
+			case stmtKinds[tn]:
+				category = "stmt"
+			}
+		}
+		sources, notes := realise(model, specView(), "x", category, 6)
+		if len(sources) == 0 {
+			return false, "not realised: " + strings.Join(notes, "; ")
+		}
+		// flip point of the real checker per source
+		flip := make([]int, len(sources))
+		for i := range flip {
+			flip[i] = -1
+		}
+		for t := 0; t <= 12; t++ {
+			rs, err := runRealised(checker, map[string]interface{}{param: float64(t)}, sources, "")
+			if err != nil {
+				return false, err.Error()
+			}
+			for i, r := range rs {
+				if i < len(flip) && r.Status == "OK" && r.Warnings > 0 {
+					flip[i] = t
+				}
+			}
+		}
+		for i, src := range sources {
+			want, ok := nativeMeasure(checker, src)
+			if !ok || flip[i] < 0 || flip[i] >= 12 {
+				continue
+			}
+			if flip[i] != want {
+				vf["realised"] = []string{src}
+				out, _ := json.MarshalIndent(vf, "", " ")
+				os.WriteFile(file, out, 0o644)
+				return true, fmt.Sprintf("real checker reports up to %s=%d but the documented boundary for this construct is %d\n%s", param, flip[i], want, src)
+			}
+		}
+		return false, fmt.Sprintf("real checker flips at the documented boundary on all realisations (flip points %v; first source: %s)", flip, strings.ReplaceAll(sources[0], "\n", "⏎"))
+	}
+}
+
+// nativeMeasure computes the documented measure of the construct in src.
+func nativeMeasure(checker, src string) (int, bool) {
+	fset := token.NewFileSet()
+	f, err := parser.ParseFile(fset, "cand.go", src, 0)
+	if err != nil {
+		return 0, false
+	}
+	res, found := 0, false
+	ast.Inspect(f, func(n ast.Node) bool {
+		switch checker {
+		case "nestingReduce":
+			var body []ast.Stmt
+			switch s := n.(type) {
+			case *ast.ForStmt:
+				body = s.Body.List
+			case *ast.RangeStmt:
+				body = s.Body.List
+			}
+			if len(body) == 1 {
+				if ifs, ok := body[0].(*ast.IfStmt); ok && ifs.Else == nil && !found {
+					res, found = len(ifs.Body.List), true
+				}
+			}
+		case "tooManyResultsChecker":
+			if fd, ok := n.(*ast.FuncDecl); ok && fd.Type.Results != nil && !found {
+				k := 0
+				for _, fl := range fd.Type.Results.List {
+					if len(fl.Names) == 0 {
+						k++
+					} else {
+						k += len(fl.Names)
+					}
+				}
+				res, found = k-1, true
+			}
+		}
+		return true
+	})
+	return res, found
 }
